@@ -27,7 +27,7 @@ Fixpoint owning_new_loop (addrs : list N) (i : N) (bufsz : N) (s : qstate)
       end
   end.
 
-(* OwningQueue::pop: returns Some (len, token) *)
+(* OwningQueue::pop: returns Some (len, token); the length is checked by poll *)
 Definition owning_pop (s : qstate) (bufsz u_idx u_id u_len : N)
   : outcome (option (N * N)) * qstate * list qev :=
   match peek_used s u_idx u_id with
@@ -37,7 +37,7 @@ Definition owning_pop (s : qstate) (bufsz u_idx u_id u_len : N)
       else
         let '(o, s1, evs) := pop_used s token [] [obuf token bufsz 0] u_idx u_id u_len in
         match o with
-        | Ok len => if bufsz <? len then (Err EIoError, s1, evs) else (Ok (Some (len, token)), s1, evs)
+        | Ok len => (Ok (Some (len, token)), s1, evs)
         | Err e => (Err e, s1, evs)
         | Panic => (Panic, s1, evs)
         | UB => (UB, s1, evs)
@@ -59,10 +59,40 @@ Definition owning_readd (s : qstate) (bufsz index addr ae uf : N) : outcome unit
     | UB => (UB, s1, map OQ evs)
     end.
 
-(* OwningQueue::poll with a handler that always succeeds (its result is passed through) *)
+(* OwningQueue::poll with a handler that always succeeds (its result is passed through). A length above
+   BUFFER_SIZE is an IoError, but the buffer is re-posted all the same. *)
 Definition owning_poll (s : qstate) (bufsz u_idx u_id u_len addr ae uf : N)
   : outcome (option (N * N)) * qstate * list oev :=
   let '(o, s1, evs) := owning_pop s bufsz u_idx u_id u_len in
+  match o with
+  | Ok (Some (len, token)) =>
+      let result : outcome (option (N * N)) := if bufsz <? len then Err EIoError else Ok (Some (len, token)) in
+      let '(o2, s2, evs2) := owning_readd s1 bufsz token addr ae uf in
+      match o2 with
+      | Ok _ => (result, s2, map OQ evs ++ evs2)
+      | Err e => (Err e, s2, map OQ evs ++ evs2)
+      | Panic => (Panic, s2, map OQ evs ++ evs2)
+      | UB => (UB, s2, map OQ evs ++ evs2)
+      end
+  | Ok None => (Ok None, s1, map OQ evs)
+  | Err e => (Err e, s1, map OQ evs)
+  | Panic => (Panic, s1, map OQ evs)
+  | UB => (UB, s1, map OQ evs)
+  end.
+
+(* ---- the behaviour before the repair (fix: commit in /repo): the length was checked in pop, and a buffer
+   whose completion carried an oversized length was never re-posted ---- *)
+Definition owning_pop_prefix (s : qstate) (bufsz u_idx u_id u_len : N)
+  : outcome (option (N * N)) * qstate * list qev :=
+  let '(o, s1, evs) := owning_pop s bufsz u_idx u_id u_len in
+  match o with
+  | Ok (Some (len, token)) => if bufsz <? len then (Err EIoError, s1, evs) else (o, s1, evs)
+  | _ => (o, s1, evs)
+  end.
+
+Definition owning_poll_prefix (s : qstate) (bufsz u_idx u_id u_len addr ae uf : N)
+  : outcome (option (N * N)) * qstate * list oev :=
+  let '(o, s1, evs) := owning_pop_prefix s bufsz u_idx u_id u_len in
   match o with
   | Ok (Some (len, token)) =>
       let '(o2, s2, evs2) := owning_readd s1 bufsz token addr ae uf in
